@@ -239,6 +239,16 @@ class Resolver:
             if isinstance(e.slice, ast.Slice):
                 return ("op", "slice", (T(e.value),))
             base, key = T(e.value), T(e.slice)
+            if key[0] == "const" and isinstance(key[1], int) and not isinstance(key[1], bool):
+                # an element of a tuple literal (also through alternatives): `pair[0]` with pair = (a, b)
+                alts_ = base[1] if base[0] == "phi" else (base,)
+                if all(a_[0] == "tuple" and -len(a_[1]) <= key[1] < len(a_[1]) for a_ in alts_):
+                    picked = []
+                    for a_ in alts_:
+                        x_ = a_[1][key[1]]
+                        if x_ not in picked:
+                            picked.append(x_)
+                    return picked[0] if len(picked) == 1 else ("phi", tuple(picked))
             if base[0] == "dict" and key[0] == "const":
                 for k, v in base[1]:
                     if k == key:
@@ -276,6 +286,18 @@ class Resolver:
             return T(e.value)
         return ("expr", ast.unparse(e)[:80])
 
+    def _project(self, t, p):
+        """project(), seeing through NamedTuple records"""
+        if t[0] == "phi":
+            parts = []
+            for a_ in t[1]:
+                x_ = self._project(a_, p)
+                if x_ not in parts:
+                    parts.append(x_)
+            return parts[0] if len(parts) == 1 else ("phi", tuple(parts))
+        rc = self.record_component(t, p) if isinstance(p, int) else None
+        return rc if rc is not None else project(t, p)
+
     def _record_fields(self, cname):
         """{field: index of the constructor argument} for a plain record class: its __init__ does nothing but
         `self.<field> = <parameter>` and nothing else in the repository ever stores such a field."""
@@ -285,6 +307,14 @@ class Resolver:
         out = None
         ci = self.m.classes.get(cname)
         init = ci.methods.get("__init__") if ci is not None else None
+        if ci is not None and init is None and getattr(ci, "bases", None) == ["NamedTuple"] and "__new__" not in ci.methods:
+            # class X(NamedTuple): a: T; b: U   - the fields are the annotated names, in order
+            names = [st.target.id for st in ci.node.body if isinstance(st, ast.AnnAssign) and isinstance(st.target, ast.Name)]
+            plain = all(isinstance(st, (ast.AnnAssign, ast.FunctionDef)) or (isinstance(st, ast.Expr) and isinstance(st.value, ast.Constant)) or isinstance(st, ast.Pass) for st in ci.node.body)
+            if names and plain and not any(isinstance(st, ast.AnnAssign) and st.value is not None for st in ci.node.body):
+                out = {n_: i_ for i_, n_ in enumerate(names)}
+            cache[cname] = out
+            return out
         if init is not None and len(init.params) >= 2 and not getattr(ci, "bases", None):
             body = [st for st in init.node.body if not (isinstance(st, ast.Expr) and isinstance(st.value, ast.Constant))]
             fields = {}
@@ -314,6 +344,15 @@ class Resolver:
                     out = fields
         cache[cname] = out
         return out
+
+    def record_component(self, t, i):
+        """component i of a record constructed positionally (NamedTuple unpacking / indexing), else None"""
+        if t[0] == "call" and t[1][0] == "name" and t[1][1] in self.m.classes and not t[3]:
+            fields = self._record_fields(t[1][1])
+            ci = self.m.classes.get(t[1][1])
+            if fields is not None and getattr(ci, "bases", None) == ["NamedTuple"] and isinstance(i, int) and 0 <= i < len(t[2]) and len(t[2]) == len(fields):
+                return t[2][i]
+        return None
 
     def _record_projection(self, base, attr):
         """<record constructed from arguments>.<field> is the argument (a private value class that only carries
@@ -453,7 +492,7 @@ class Resolver:
             else:
                 t = ("expr", "?")
             for p in path:
-                t = project(t, p)
+                t = self._project(t, p)
             if t not in alts:
                 alts.append(t)
         if not alts:
@@ -500,7 +539,7 @@ class Resolver:
                 if desc[0] == "val":
                     t = self.term(desc[1], at=dat)
                     for p in path:
-                        t = project(t, p)
+                        t = self._project(t, p)
                 elif desc[0] == "elem":
                     t = self.term(desc[1], at=dat)
                     t = t[1] if t[0] == "gen" else ("elem", t)
